@@ -187,7 +187,7 @@ fn gen_broker(rng: &mut Rng) -> Case {
                 0 | 1 | 2 | 3 => {
                     next_pub += 1;
                     npubs += 1;
-                    ops.push(Op::Publish { j, m: next_pub, via: rng.below(2) });
+                    ops.push(Op::Publish { j, m: next_pub, via: rng.below(3) });
                 }
                 4 | 5 => {
                     // an actor publishes from its handler (Context::publish)
@@ -215,6 +215,35 @@ fn gen_broker(rng: &mut Rng) -> Case {
         }
         clients.push(ops);
     }
+    // epilogue (1 in 4): a client that obtained the broker's address early keeps publishing through it after every
+    // subscriber has terminated and a publication has been processed in between (the broker stays the broker)
+    let epilogue = rng.chance(1, 4);
+    if epilogue {
+        let mut pre = vec![];
+        for j in 0..ntopics {
+            next_pub += 1;
+            npubs += 1;
+            pre.push(Op::Publish { j, m: next_pub, via: 2 });
+        }
+        let mut post = vec![];
+        for a in 0..nsubs {
+            post.push(Op::Stop { h: hof(0, a) });
+        }
+        post.push(Op::Sleep(2));
+        for j in 0..ntopics {
+            next_pub += 1;
+            npubs += 1;
+            post.push(Op::Publish { j, m: next_pub, via: 0 });
+        }
+        post.push(Op::Sleep(1));
+        for j in 0..ntopics {
+            next_pub += 1;
+            npubs += 1;
+            post.push(Op::Publish { j, m: next_pub, via: 2 });
+        }
+        let body = std::mem::take(&mut clients[0]);
+        clients[0] = pre.into_iter().chain(body).chain(post).collect();
+    }
     // finale: the clients let go of every subscriber (a last publication may or may not follow the last delivery)
     let finale = rng.chance(1, 2);
     if finale {
@@ -236,6 +265,7 @@ fn gen_broker(rng: &mut Rng) -> Case {
         cancel: None,
         tags: vec![
             format!("finale={}", finale as u8),
+            format!("epilogue={}", epilogue as u8),
             format!("topics={}", ntopics),
             format!("subs={}", nsubs),
             format!("clients={}", nclients),
